@@ -648,6 +648,17 @@ class LSym:
             p = self.new_region("heap", n.cval(), zero=("zeroed" in name), kind="heap")
             self.heap.append(p.r)
             return p
+        if "__rust_realloc" in name:
+            # (ptr, old_size, align, new_size): a fresh block, the common prefix copied, the old block released
+            p = args[0]; old = self.P(args[1]); new = self.P(args[3])
+            if not (isinstance(p, Ptr) and old.is_const() and new.is_const()): raise Unsupported("realloc of symbolic size")
+            q = self.new_region("heap", new.cval(), kind="heap"); self.heap.append(q.r)
+            src = self.regions[p.r]; dst = self.regions[q.r]
+            for o, e in list(src.b.items()):
+                if o < min(old.cval(), new.cval()): dst.b[o] = e
+            self.on_dealloc(p, [p, args[1], args[2]])
+            src.freed = True
+            return q
         if "__rust_dealloc" in name:
             p = args[0]
             if isinstance(p, Ptr) and p.r in self.regions:
